@@ -642,6 +642,69 @@ fn gen_tx(rng: &mut Rng, w: &Weights, cfg: &Config, gw: &mut GenWorld, id: u32, 
     }
 }
 
+/// A scripted mini-history placed at the start of some runs: one withdrawal event id of a bridge
+/// account carried first by action kind `k1` and then again by kind `k2` (all nine pairs of
+/// BridgeUnlock / BridgeTransfer / Ics20Withdrawal, source- and sink-zone bridge assets). The
+/// surrounding random operations stay in place; the recipe only guarantees that the cross-kind
+/// reuse matrix is exercised regularly.
+fn gen_event_reuse_recipe(rng: &mut Rng, cfg: &Config, gw: &mut GenWorld, next_id: &mut u32, profile: &str) -> Vec<Op> {
+    let na = cfg.n_accounts;
+    let mut out = Vec::new();
+    let asset: u8 = if rng.chance(1, 2) { 0 } else { 2 };
+    // a funder that holds the asset at genesis
+    let funder = if asset == 0 {
+        (0..na).find(|a| cfg.balances.get(*a as usize).copied().unwrap_or(0) > 1_000_000)
+    } else {
+        cfg.extra.iter().find(|(_, a, _)| *a == asset).map(|(acct, _, _)| *acct)
+    };
+    let Some(funder) = funder else { return out };
+    let bridge = (0..na).find(|a| *a != funder && !gw.bridges.contains_key(a));
+    let Some(bridge) = bridge else { return out };
+    let bridge2 = (0..na).find(|a| *a != funder && *a != bridge && !gw.bridges.contains_key(a));
+    let withdrawer = if rng.chance(1, 2) { bridge } else { rng.below(u64::from(na)) as u8 };
+    let fee_asset = cfg.fee_assets[0];
+    let mut id = || {
+        let i = *next_id;
+        *next_id += 1;
+        i
+    };
+    let tx = |id: u32, signer: u8, actions: Vec<ActOp>| Op::Tx(TxOp { id, signer, nonce: NonceSel::Next, actions, nodes: 0xff, dup: false, replay_of: None });
+    let block = |id: u32, rng: &mut Rng| {
+        Op::Block(BlockOp {
+            id,
+            dt_ms: rng.range(1, 999) as u32,
+            max_tx_bytes: 1_048_576,
+            rounds: vec![RoundOp { proposer: rng.below(8) as u8, prepare: true, process: 0xff, byz: None }],
+            crash: None,
+            late: 0,
+            votes: gen_votes(rng, cfg, profile),
+            verify_on: rng.below(8) as u8,
+        })
+    };
+    out.push(tx(id(), bridge, vec![ActOp::InitBridge { rollup: rng.below(u64::from(N_ROLLUPS)) as u8, asset, fee_asset, sudo: None, withdrawer: Some(withdrawer) }]));
+    gw.bridges.insert(bridge, (asset, bridge, withdrawer));
+    if let Some(b2) = bridge2 {
+        out.push(tx(id(), b2, vec![ActOp::InitBridge { rollup: rng.below(u64::from(N_ROLLUPS)) as u8, asset, fee_asset, sudo: None, withdrawer: None }]));
+        gw.bridges.insert(b2, (asset, b2, b2));
+    }
+    out.push(block(id(), rng));
+    out.push(tx(id(), funder, vec![ActOp::BridgeLock { to: bridge, asset, amt: Amt::PerMille(300), fee_asset, dest_len: 10 }]));
+    out.push(block(id(), rng));
+    let event = rng.range(40, 60) as u8;
+    gw.used_events.push((bridge, event));
+    let kinds: Vec<u8> = vec![rng.below(3) as u8, rng.below(3) as u8];
+    for k in kinds {
+        let a = match k {
+            0 => ActOp::BridgeUnlock { bridge, to: rng.below(u64::from(na)) as u8, amt: Amt::PerMille(100), fee_asset, event },
+            1 => ActOp::BridgeTransfer { bridge, to: bridge2.unwrap_or(bridge), amt: Amt::PerMille(100), fee_asset, event },
+            _ => ActOp::Ics20Withdrawal { asset, amt: Amt::PerMille(100), channel: rng.below(2) as u8, fee_asset, bridge: Some(bridge), event },
+        };
+        out.push(tx(id(), withdrawer, vec![a]));
+        out.push(block(id(), rng));
+    }
+    out
+}
+
 fn gen_ibc(rng: &mut Rng, cfg: &Config, gw: &GenWorld, id: u32) -> IbcOp {
     let na = u64::from(cfg.n_accounts);
     let relayer = if !gw.relayers.is_empty() && rng.chance(9, 10) { *rng.pick(&gw.relayers) } else { rng.below(na) as u8 };
@@ -841,6 +904,15 @@ pub(crate) fn generate(profile: &str, tier: &str, seed: u64) -> Scenario {
     let mut next_id = 0u32;
     let mut tx_ids: Vec<u32> = Vec::new();
     let mut gw = GenWorld::new(&cfg);
+    if matches!(profile, "ledger" | "ibc" | "mixed" | "atomic") && rng.chance(2, 5) {
+        let recipe = gen_event_reuse_recipe(&mut rng, &cfg, &mut gw, &mut next_id, profile);
+        for op in &recipe {
+            if let Op::Tx(t) = op {
+                tx_ids.push(t.id);
+            }
+        }
+        ops.extend(recipe);
+    }
     for _h in 0..heights {
         // early on, make sure some bridge accounts exist
         let n_txs = match rng.weighted(&[10, 40, 35, 15]) {
